@@ -79,6 +79,11 @@ def _info_bounded(prop):
             "attribute access on atoms) are not followed; every name reference inside a function body counts as a call",
             "preprocessor lines start in column 0 (as GROMACS writes them); 'ignored' is read literally: the lines "
             "between #ifdef and #endif still count",
+            "not demanded by the statement, hence reported as 'undecided' and never as 'refuted': the layout of read_topology's "
+            "return value and per-atom tuples, atom.index / len() / iteration protocol, attribute names, '!=' and the copy's class, "
+            "are_connected on AtomTop objects built by the harness when the loaded molecule is answered correctly, anything observed "
+            "only on inputs outside the quantifier ([ atoms ] after a bond section, no final newline, no mass column, bond lines "
+            "without funct), and a recursive call cycle when the real code still answers chains of 1500 and 3000 atoms",
             "generated files satisfy the GROMACS line formats (atoms: nr type resnr residue atom cgnr charge [mass]; "
             "bonds/constraints/pairs: ai aj [funct [params]]); one moleculetype per file; nrexcl >= 1",
         ],
@@ -1237,7 +1242,10 @@ def task_large(group, tier, seed):
     def cases():
         for fam, n, s, secs, num, di in large_cases(group, tier, seed):
             spec = large_spec(fam, n, s, secs, num)
-            d = dict(DECOS[di], num=num, res="tens")
+            d = dict(DECOS[di], num=num, res="tens", final_nl=True, mass=True)
+            d["bondcols"] = max(1, d["bondcols"])
+            if outside_quantifier(d):      # the large graphs are always written inside the statement's quantifier
+                d["order"] = 0
             yield (f"{fam} n={n} seed={s} sections={secs} numbering={num} deco={di}", fmt_itp(spec, d), expected_of(spec),
                    outside_quantifier(d))
     return run_cases(f"large.{group}", cases())
